@@ -377,6 +377,19 @@ def check_law(case):
             dis.append({"clause": "Invariance", "transform": name, "kind": obj[0], "detail": "length %r of %s becomes %r under %s (expected %r)" % (L, obj, L2, name, f * L)})
     try:
         from copy import copy
+        # the same OBJECT measured, mapped in place, measured again (a length belongs to the geometry the object has now)
+        z = copy(x)
+        z.length(error=e)
+        z *= svg.Matrix.scale(3)
+        L4 = z.length(error=e)
+        if abs(L4 - 3 * L) > 3 * tol:
+            dis.append({"clause": "Invariance", "transform": "scale 3 in place after a first measurement", "kind": obj[0],
+                        "detail": "length %r of %s, measured again after seg *= scale(3): %r (expected %r)" % (L, obj, L4, 3 * L)})
+        z *= svg.Matrix(0.6, 0.8, -0.8, 0.6, 7, -3)
+        L5 = z.length(error=e)
+        if abs(L5 - 3 * L) > 3 * tol:
+            dis.append({"clause": "Invariance", "transform": "rotation in place after two measurements", "kind": obj[0],
+                        "detail": "length %r of %s x 3, measured again after an in-place rotation: %r" % (L, obj, L5)})
         y = copy(x)
         y.reverse()
         L3 = y.length(error=e)
